@@ -3,6 +3,8 @@
    (bitemp merge T:<stamp> <ts>)     store := bi_merge(store, Bi(ts, stamp));  reply: the rows of the store
    (bitemp mergelist (L (T T:<stamp> <ts>)*))   store := bi_merge(store, [Bi(ts, stamp), ...]);  reply: the rows of the store | N
    (bitemp read  <N|T:asof> I:<what>) reply: bi_read(store, asof, what) as a series
+   (bitemp read  T:<asof> I:<what> S:<spelling>)  the same read; the implementation side hands the time over in
+                                      another spelling (str, int, date, ...), the model reads as of the time itself
    (bitemp spec  <N|T:asof>)          reply: the fold of the publication log (`specRead`) - what the
                                       property says an as-of read must return
 -/
@@ -58,6 +60,12 @@ def handle (s : St) (op : String) (args : List Sexp) : Option (St × String) := 
           match st with | some st => "ok " ++ (rowsVal st).render | Option.none => "ok N")
       | .error e => pure (s, "err " ++ e.render)
   | "read", [asof, what] =>
+      let asof ← asofOf asof
+      let what ← intOf what
+      match s.store with
+      | Option.none => pure (s, "ok N")
+      | some st => pure (s, "ok " ++ (TS.toVal (biRead st asof what)).render)
+  | "read", [asof, what, .atom _] =>
       let asof ← asofOf asof
       let what ← intOf what
       match s.store with
